@@ -58,7 +58,7 @@ fn run(a: &vhcore::Args) -> i32 {
                 if !still {
                     // only reproduces in company of batch neighbours: report with the batch as replay
                     rep.violation(
-                        &format!("C01|{}|{}|only-in-batch", shape_of(case), kind),
+                        &format!("C01|{}|{}|only-in-batch", case.known_class.map(|k| k.to_string()).unwrap_or_else(|| shape_of(case)), kind),
                         &format!("{} [{label}] {msg} (does not reproduce alone)", case.desc),
                         json!({"desc": case.desc, "build": label, "note": "reproduces only inside its batch"}),
                     );
